@@ -29,9 +29,19 @@ def convertStatus (s : Nat) : Nat :=
   else if s = 0x107 then 0x40a else if s = 0x200 then 0x403 else if s = 0x300 then 0x404
   else if s = 0x301 then 0x405 else 0x406
 
+/-- `KSI_convertExtenderStatusCode` -/
+def convertStatusExt (s : Nat) : Nat :=
+  if s = 0 then 0
+  else if s = 0x101 then 0x400 else if s = 0x102 then 0x401 else if s = 0x103 then 0x402
+  else if s = 0x104 then 0x501 else if s = 0x105 then 0x504 else if s = 0x106 then 0x505
+  else if s = 0x107 then 0x506 else if s = 0x200 then 0x403 else if s = 0x201 then 0x502
+  else if s = 0x202 then 0x503 else if s = 0x300 then 0x404 else if s = 0x301 then 0x405 else 0x406
+
 structure State where
   /-- `options[KSI_ASYNC_OPT_REQUEST_CACHE_SIZE]` = configured size + 1 (slot 0 is reserved) -/
   size : Nat
+  /-- the extending service (`KSI_ExtendingAsyncService_new`): it differs from the signing one in the status conversion only -/
+  ext : Bool := false
   slots : List (Option Nat)
   requestCount : Nat := 0
   offset : Nat := 0
@@ -44,6 +54,9 @@ structure State where
   conf : Bool := false
   tcp : Tcp.State := {}
 deriving Repr
+
+/-- the service's own status conversion (`convertStatusCode` argument of `handleResponse` / `processResponseQueue`) -/
+def State.conv (s : State) (st : Nat) : Nat := if s.ext then convertStatusExt st else convertStatus st
 
 def init (configured : Nat) : State :=
   { size := configured + 1, slots := List.replicate (configured + 1) none }
@@ -93,8 +106,8 @@ def handleResp (s : State) (id status : Nat) : State :=
     | some h =>
       if s.ids.getD h 0 ≠ id then s
       else if (s.tcp.getReq h).state ≠ .waitResponse then s
-      else if convertStatus status ≠ 0 then
-        { s with tcp := s.tcp.setReq h fun r => { r with state := .error (convertStatus status) } }
+      else if s.conv status ≠ 0 then
+        { s with tcp := s.tcp.setReq h fun r => { r with state := .error (s.conv status) } }
       else
         { s with tcp := s.tcp.setReq h fun r => { r with state := .received },
                  pending := s.pending - 1, received := s.received + 1 }
@@ -107,7 +120,7 @@ def processQueue (interp : Bytes → Pdu) : Nat → State → Option Nat → Sta
     match s.tcp.respQueue with
     | [] =>
       match errPdu with
-      | some st => (failWaiting s (convertStatus st), 0)
+      | some st => (failWaiting s (s.conv st), 0)
       | none => (s, 0)
     | p :: rest =>
       let s := { s with tcp := { s.tcp with respQueue := rest } }
